@@ -50,6 +50,9 @@ func main() {
 		runWorker(os.Args[2], os.Args[3], shard, n, os.Args[6], trace)
 	case "replay":
 		os.Exit(runReplay(os.Args[2]))
+	case "racefree":
+		cfg, _ := strconv.Atoi(os.Args[2])
+		c15RaceFreeMain(cfg)
 	case "list":
 		var ids []string
 		for id := range registry {
@@ -404,6 +407,9 @@ func runParent(prop, tier string) int {
 			unreproduced++
 			fmt.Printf("UNREPRODUCED property=%s signature=%s (seen in-process, not in a fresh process; not reported)\n", prop, s)
 			continue
+		}
+		if strings.HasPrefix(s, "race-detector/") && repro > 0 {
+			repro = tries // a report of the race detector is believed when it shows up again at least once
 		}
 		if repro != tries {
 			fmt.Fprintf(os.Stderr, "harness failure: signature %s reproduced %d/%d times in fresh processes\n", s, repro, tries)
